@@ -323,6 +323,8 @@ RULES = [
     ("C12-R3", "negative text operators are the negation of their positive arm, result by result", r3),
     ("C12-R4", "operator -> translator dispatch, subject/pattern sides, is_glob", r4),
     ("X-LITERAL", "a literal is never answered from the text-keyed per-entry memo [shared]", lambda ctx: __import__("extra").literal_before_memo(ctx)),
+    ("X-LEXCHARS", "the lexer reads the query by characters, not bytes [shared]", lambda ctx: __import__("extra2").lexer_reads_characters(ctx)),
+    ("C12-R5", "the comparison carries the operator written in the query", lambda ctx: __import__("extra2").operator_is_the_lexed_one(ctx)),
 ]
 
 EXPLANATION = (
